@@ -35,9 +35,10 @@ def evaluate_case(xcfg, inp, runs_spec, so, se, rc, name, thresholds, tag, kerne
     text = "# xcfg=%r\n" % (xcfg,) + "\n".join(numx.case_lines(name, inp, real, [s for s, _, _ in runs_spec])) + "\n"
     cases = common.split_cases(so)
     if rc != 0 or name not in cases or cases[name][-1:] != ["end"]:
-        sig = "crash:" + corefam.crash_signature(se)
+        from props import numfam
+        sig = "crash:" + numfam.crash_sig(se, inp, real)
         rep.violation(sig, "# " + se[:3000].replace("\n", "\n# ") + "\n" + text, True,
-                      "[%s %r] the real library aborted on variant case %s: %s" % (kernel_name, xcfg, name, corefam.crash_signature(se)))
+                      "[%s %r] the real library aborted on variant case %s: %s" % (kernel_name, xcfg, name, sig[6:]))
         return None
     if crash_only:
         return None
